@@ -8,18 +8,21 @@
 //	dxildrive scalar     data:{"signed":["-3",..],"char6":[97,..]} -> {"signed":[..],"char6":[..]}
 //	dxildrive consts     -> FourCC table, stage kinds
 //	dxildrive compile    {"src":..,"opts":{"sm_minor":0,"bypass":false,"bindmap":0}} -> valid, per entry point: bytes (hex), stage, err,
-//	                     ir_mutated, same_module_again (same ir.Module compiled twice), deterministic (freshly lowered module)
+//	                     ir_mutated (+ mutated_where / mutated_site: deep snapshot of the caller's module before vs after each
+//	                     Compile), same_module_again (same ir.Module compiled twice), deterministic (freshly lowered module),
+//	                     again_equals_fresh; opts.once = one compile only (interface sweeps)
 package main
 
 import (
 	"bytes"
 	"crypto/md5"
-	"crypto/sha256"
 	"encoding/hex"
-	"encoding/json"
 	"fmt"
+	"reflect"
+	"runtime/debug"
 	"sort"
 	"strconv"
+	"strings"
 
 	"verifharness/common"
 
@@ -239,6 +242,7 @@ func doCompile(j *job, res map[string]any) {
 	// a second, independently lowered copy of the same source (fresh history)
 	ast2, _ := naga.Parse(src)
 	mod2, err2 := naga.LowerWithSource(ast2, src)
+	once := j.OptBool("once", false)
 	eps := []any{}
 	for i := range mod.EntryPoints {
 		if only >= 0 && i != only {
@@ -248,15 +252,40 @@ func doCompile(j *job, res map[string]any) {
 		r := map[string]any{"index": i, "name": ep.Name, "stage": stageNames[ep.Stage],
 			"kind": dxil.VerifStageKind(int(ep.Stage))}
 		single := singleEP(mod, i)
-		h0 := irHash(single)
+		if once {
+			// interface sweeps: one compile, the container is all the caller looks at
+			b1, e1 := compileOnce(single, opts)
+			if e1 != "" {
+				r["err"] = e1
+				if strings.HasPrefix(e1, "panic:") {
+					r["panic_site"] = panicSite(lastPanicStack)
+				}
+			} else {
+				r["hex"] = hex.EncodeToString(b1)
+			}
+			eps = append(eps, r)
+			continue
+		}
+		d0 := common.Dump(single) // deep snapshot of what the caller handed in
 		b1, e1 := compileOnce(single, opts)
 		if e1 != "" {
 			r["err"] = e1
+			if strings.HasPrefix(e1, "panic:") {
+				r["stack"] = lastPanicStack
+				r["panic_site"] = panicSite(lastPanicStack)
+			}
 			eps = append(eps, r)
 			continue
 		}
 		r["hex"] = hex.EncodeToString(b1)
-		r["ir_mutated"] = irHash(single) != h0
+		d1 := common.Dump(single)
+		mutated := false
+		if where, site, diff := diffDump(d0, d1, "", ""); diff {
+			mutated = true
+			r["mutated_where"] = where
+			r["mutated_site"] = site
+			r["mutated_by"] = "first"
+		}
 		// same module value compiled again (history dependence)
 		b2, e2 := compileOnce(single, opts)
 		r["same_module_again"] = e2 == "" && bytes.Equal(b1, b2)
@@ -265,19 +294,85 @@ func doCompile(j *job, res map[string]any) {
 		} else if !bytes.Equal(b1, b2) {
 			r["hex_again"] = hex.EncodeToString(b2)
 		}
-		// freshly lowered module compiled (determinism proper)
+		if !mutated {
+			if where, site, diff := diffDump(d0, common.Dump(single), "", ""); diff {
+				mutated = true
+				r["mutated_where"] = where
+				r["mutated_site"] = site
+				r["mutated_by"] = "second"
+			}
+		}
+		r["ir_mutated"] = mutated
+		// freshly lowered module compiled (determinism proper); the second compile of the
+		// re-used module must agree with it too
 		if err2 == nil && i < len(mod2.EntryPoints) {
 			b3, e3 := compileOnce(singleEP(mod2, i), opts)
 			r["deterministic"] = e3 == "" && bytes.Equal(b1, b3)
 			if e3 != "" {
 				r["fresh_err"] = e3
-			} else if !bytes.Equal(b1, b3) {
-				r["hex_fresh"] = hex.EncodeToString(b3)
+			} else {
+				if !bytes.Equal(b1, b3) {
+					r["hex_fresh"] = hex.EncodeToString(b3)
+				}
+				if e2 == "" {
+					r["again_equals_fresh"] = bytes.Equal(b2, b3)
+				}
 			}
 		}
 		eps = append(eps, r)
 	}
 	res["eps"] = eps
+}
+
+// diffDump finds the first place where two reflection dumps differ: `where` is the
+// concrete path (with indices), `site` the path of Go type and field names only
+// (stable across programs: it names the kind of IR node that changed).
+func diffDump(a, b any, where, site string) (string, string, bool) {
+	switch x := a.(type) {
+	case map[string]any:
+		y, ok := b.(map[string]any)
+		if !ok {
+			return where, site, true
+		}
+		tn, _ := x["_t"].(string)
+		if t2, _ := y["_t"].(string); t2 != tn {
+			return where, site + "/" + tn + "->" + t2, true
+		}
+		keys := make([]string, 0, len(x))
+		for k := range x {
+			keys = append(keys, k)
+		}
+		for k := range y {
+			if _, ok := x[k]; !ok {
+				keys = append(keys, k)
+			}
+		}
+		sort.Strings(keys)
+		for _, k := range keys {
+			if w, s, d := diffDump(x[k], y[k], where+"."+k, site+"/"+tn+"."+k); d {
+				return w, s, true
+			}
+		}
+		return "", "", false
+	case []any:
+		y, ok := b.([]any)
+		if !ok {
+			return where, site, true
+		}
+		if len(x) != len(y) {
+			return fmt.Sprintf("%s[len %d->%d]", where, len(x), len(y)), site + "[len]", true
+		}
+		for i := range x {
+			if w, s, d := diffDump(x[i], y[i], fmt.Sprintf("%s[%d]", where, i), site); d {
+				return w, s, true
+			}
+		}
+		return "", "", false
+	}
+	if !reflect.DeepEqual(a, b) {
+		return where, site, true
+	}
+	return "", "", false
 }
 
 func singleEP(mod *ir.Module, i int) *ir.Module {
@@ -289,19 +384,41 @@ func singleEP(mod *ir.Module, i int) *ir.Module {
 	}
 }
 
-func irHash(m *ir.Module) string {
-	b, err := json.Marshal(common.Dump(m))
-	if err != nil {
-		return "err:" + err.Error()
+// stack of the most recent recovered panic of dxil.Compile (reported next to the error)
+var lastPanicStack string
+
+// panicSite names the innermost naga function on the stack of a recovered panic
+// ("emit.(*Emitter).preAllocateLocalVars"): a stable name for where the compiler gave up.
+func panicSite(stack string) string {
+	lines := strings.Split(stack, "\n")
+	seen := false
+	for _, l := range lines {
+		if strings.HasPrefix(l, "panic(") {
+			seen = true
+			continue
+		}
+		if !seen || strings.HasPrefix(l, "\t") {
+			continue
+		}
+		if i := strings.Index(l, "github.com/gogpu/naga/"); i >= 0 {
+			name := l[i+len("github.com/gogpu/naga/"):]
+			if j := strings.LastIndex(name, "("); j > 0 {
+				name = name[:j]
+			}
+			if j := strings.LastIndex(name, "/"); j >= 0 {
+				name = name[j+1:]
+			}
+			return name
+		}
 	}
-	h := sha256.Sum256(b)
-	return hex.EncodeToString(h[:8])
+	return "?"
 }
 
 func compileOnce(m *ir.Module, opts dxil.Options) (out []byte, errs string) {
 	defer func() {
 		if r := recover(); r != nil {
 			errs = "panic: " + fmt.Sprint(r)
+			lastPanicStack = string(debug.Stack())
 		}
 	}()
 	b, err := dxil.Compile(m, opts)
